@@ -157,6 +157,11 @@ impl Compound {
             return Ok(true);
         }
 
+        // The very same unit on both sides needs no conversion at all.
+        if self == other {
+            return Ok(true);
+        }
+
         let (_, lhs_bases) = self.base_units();
         let (_, rhs_bases) = other.base_units();
 
